@@ -67,7 +67,8 @@ def run(sd, props):
     wt = worktree()
     scratch = tempfile.mkdtemp(prefix='pckb-scratch-', dir='/tmp')
     try:
-        rc, out = sh(['git', 'apply', os.path.join(sd, 'patch.diff')], cwd=wt)
+        patch = sd if sd.endswith('.diff') else os.path.join(sd, 'patch.diff')
+        rc, out = sh(['git', 'apply', patch], cwd=wt)
         if rc != 0:
             raise SystemExit('patch does not apply: ' + out)
         env = dict(os.environ, VERIF_REPO=wt, VERIF_SCRATCH=scratch)
@@ -99,3 +100,4 @@ if __name__ == '__main__':
         print(p, 'exit', r[p]['exit'], '|', ' || '.join(r[p]['lines'])[:400])
     caught = [p for p in r if r[p]['exit'] == 1]
     print('CAUGHT-BY:', ' '.join(sorted(caught)) or '(none)')
+    print('UNDECIDED:', ' '.join(sorted(p for p in r if r[p]['exit'] == 2)) or '(none)')
